@@ -173,6 +173,10 @@ def oracle_same_as_sequential(ctx):
     return v
 
 
+PAIR_WLS = [wl("diamond"), wl("first_of"), wl("quorum"), wl("fail_branch"), wl("synthetic2"), wl("mutex2"), wl("choice2"),
+            wl("or_split_join")]
+PAIR_WLS_MORE = [wl("multi_merge"), wl("diamond_multitask"), wl("jump_side_fanin", 1), wl("fan3"), wl("synthetic_gate")]
+
 ENGINE = {
     # name: (workload spec, skip, setup actions, scripts, oracle)
     "SignalStage(persistent)||RunTask(suspends)": (wl("suspend_gate"), ["RunTask:G", "SignalStage"], ["signal:G:p"], [1, 1], oracle_signal),
@@ -217,6 +221,11 @@ def jobs(tier, seed):
         js.append({"label": f"engine SignalStage(persistent)||RunTask(suspends) + lock fault at statement {k}|preemptions<=1",
                    "kind": "engine", "scenario": "SignalStage(persistent)||RunTask(suspends)", "bound": 1,
                    "fault": [0, k]})
+    # every pair of messages that are ready together at any state of the in-order / newest-first run, one message per
+    # worker thread: the result must be one that handling them one after the other can produce
+    from vlib.pairs import pair_jobs
+
+    js += pair_jobs(PAIR_WLS if tier == "quick" else PAIR_WLS + PAIR_WLS_MORE, 1 if tier == "quick" else 2)
     js.sort(key=lambda j: (-j["bound"], j["kind"]))
     return js
 
@@ -224,6 +233,10 @@ def jobs(tier, seed):
 def run_job(job):
     import checks.C04  # noqa: F401
 
+    if job["kind"] == "pairs":
+        from vlib.pairs import pair_job
+
+        return pair_job(job)
     if job["kind"] == "writers":
         s = writer_job(job)
     else:
